@@ -1142,7 +1142,33 @@ func (g *Gen) famDidAdv() {
 	upd := func(p *ProofSpec, doc *DocSpec) {
 		g.tx(MsgSpec{T: "did.Update", F: map[string]string{"did": did, "from": from}, Doc: doc, Proof: p})
 	}
-	switch r.Intn(32) {
+	switch r.Intn(36) {
+	case 34, 35: // two secp256k1 methods under ONE id in authentication (nothing requires ids to be unique): the first one signs.
+		// Whoever tries the candidates one after the other must stop at the one that verifies - and keep what it returned.
+		x := did + "#dup"
+		doc := &DocSpec{Id: did, VMs: []VMSpec{{Id: mid, Type: "EcdsaSecp256k1VerificationKey2019", Controller: did, Key: k}},
+			Auth: []RelSpec{{Ref: mid}, {VM: &VMSpec{Id: x, Type: "EcdsaSecp256k1VerificationKey2019", Controller: did, Key: k}}, {VM: &VMSpec{Id: x, Type: "EcdsaSecp256k1VerificationKey2019", Controller: did, Key: other}}}}
+		id := g.tx(MsgSpec{T: "did.Update", F: map[string]string{"did": did, "from": from}, Doc: doc, Proof: &ProofSpec{Key: k, MethodID: mid, Seq: "cur"}})
+		g.didTx = append(g.didTx, didRef{id, did})
+		if r.Chance(0.5) {
+			g.tx(MsgSpec{T: "did.Deactivate", F: map[string]string{"did": did, "from": from}, Proof: &ProofSpec{Key: k, MethodID: x, Seq: "cur"}})
+			g.tx(MsgSpec{T: "did.Create", F: map[string]string{"did": did, "from": from}, Doc: g.didDoc(did, []int{other}, 0), Proof: &ProofSpec{Key: other, MethodID: fmt.Sprintf("%s#key%d", did, other), Seq: "0"}})
+		} else {
+			upd(&ProofSpec{Key: k, MethodID: x, Seq: "cur"}, doc)
+			upd(&ProofSpec{Key: k, MethodID: mid, Seq: "cur"}, doc)
+		}
+	case 32, 33: // the stored document lists a method of a key type nothing can verify under authentication; an update names it and
+		// brings a new document in which that id is a secp256k1 method with the sender's key: the proof is to be checked
+		// against the STORED document
+		x := did + "#bbs"
+		doc := g.didDoc(did, []int{k}, 0)
+		doc.VMs = append(doc.VMs, VMSpec{Id: x, Type: []string{"Bls12381G1Key2020", "Ed25519VerificationKey2018", "JsonWebKey2020"}[r.Intn(3)], Controller: did, Key: other})
+		doc.Auth = append(doc.Auth, RelSpec{Ref: x})
+		id := g.tx(MsgSpec{T: "did.Update", F: map[string]string{"did": did, "from": from}, Doc: doc, Proof: &ProofSpec{Key: k, MethodID: mid, Seq: "cur"}})
+		g.didTx = append(g.didTx, didRef{id, did})
+		att := (k + 7) % NumDidKeys
+		forged := &DocSpec{Id: did, VMs: []VMSpec{{Id: x, Type: "EcdsaSecp256k1VerificationKey2019", Controller: did, Key: att}}, Auth: []RelSpec{{Ref: x}}}
+		upd(&ProofSpec{Key: att, MethodID: x, Seq: "cur"}, forged)
 	case 30, 31: // a very large document (nothing limits the size of a service endpoint): sizes around 4 KiB, 16 KiB, 32 KiB, 64 KiB
 		doc := g.didDoc(did, []int{k}, 0)
 		base := []int{4096, 16384, 32768, 65536, 65536, 65536}[r.Intn(6)]
@@ -1589,6 +1615,16 @@ func (g *Gen) famPnftAdv() {
 	switch r.Intn(14) {
 	case 13: // a denom id that changes hands by deletion and re-creation: whatever the first owner could do ended with the deletion
 		id := fmt.Sprintf("reborn%d", g.next)
+		if r.Chance(0.4) {
+			// ids of 63, 64, 65 and 100 bytes (nothing limits the length of a denom id), some of them extensions of one another
+			id = strings.Repeat("h", []int{63, 64, 65, 100}[r.Intn(4)])
+			if r.Chance(0.5) {
+				// a 64-byte id that holds a token, and its extension which is created, deleted and created again next to it
+				g.tx(M("pnft.CreateDenom", "id", strings.Repeat("h", 64), "name", "base", "symbol", "B", "creator", g.addr(r.Intn(5))))
+				g.tx(M("pnft.Mint", "denom", strings.Repeat("h", 64), "id", "kept", "name", "n", "creator", g.plan.ownerOf(strings.Repeat("h", 64))))
+				id = strings.Repeat("h", 64) + "-ext"
+			}
+		}
 		a, b := g.addr(r.Intn(5)), g.addr(5+r.Intn(4))
 		g.tx(M("pnft.CreateDenom", "id", id, "name", "first", "symbol", "F", "creator", a))
 		if r.Chance(0.4) {
@@ -2135,7 +2171,24 @@ func (g *Gen) famTamper() {
 		if r.Chance(0.5) {
 			a, b = `q"x`, `q\"x`
 		}
-		if r.Chance(0.5) {
+		if r.Chance(0.35) {
+			// free-form data that is JSON: two documents a JSON normaliser would make equal (key order, white space, a number
+			// beyond 2^53, a repeated key) are two different byte strings and two different messages
+			tw := [][2]string{{`{"a":1,"b":2}`, `{"b":2,"a":1}`}, {`{"a":1}`, `{"a": 1}`}, {`{"serial":9007199254740993}`, `{"serial":9007199254740992}`},
+				{`{"owner":"alice","owner":"bob"}`, `{"owner":"bob"}`}, {`{"v":1.0}`, `{"v":1}`}, {`[1,2]`, `[1, 2]`}}[r.Intn(6)]
+			id := fmt.Sprintf("tw%d", g.next)
+			switch r.Intn(3) {
+			case 0:
+				honest = []MsgSpec{M("pnft.CreateDenom", "id", id, "name", "n", "symbol", "s", "data", tw[0], "creator", o)}
+				forged = []MsgSpec{M("pnft.CreateDenom", "id", id, "name", "n", "symbol", "s", "data", tw[1], "creator", o)}
+			case 1:
+				honest = []MsgSpec{M("pnft.Mint", "denom", id, "id", "t", "name", "n", "data", tw[0], "creator", o)}
+				forged = []MsgSpec{M("pnft.Mint", "denom", id, "id", "t", "name", "n", "data", tw[1], "creator", o)}
+			case 2:
+				honest = []MsgSpec{M("pnft.UpdateDenom", "id", id, "data", tw[0], "updater", o)}
+				forged = []MsgSpec{M("pnft.UpdateDenom", "id", id, "data", tw[1], "updater", o)}
+			}
+		} else if r.Chance(0.5) {
 			id := fmt.Sprintf("tw%d", g.next)
 			honest = []MsgSpec{M("pnft.CreateDenom", "id", id, "name", a, "symbol", "s", "creator", o)}
 			forged = []MsgSpec{M("pnft.CreateDenom", "id", id, "name", b, "symbol", "s", "creator", o)}
